@@ -227,6 +227,27 @@ def s3_calculator(ctx):
                 ctx.violation('S3 sampled save wrote %d objects' % len(fake.log), {'ratio': ratio})
             if len(seen) != 1 or seen[0][0] != 'Cat' or not isinstance(seen[0][1], int) or seen[0][1] <= 0 or seen[0][2] is not rec:
                 ctx.violation('S3 sampling calculator was not called once with (category, size, recording)', {'seen': repr(seen)[:200]})
+    # reproducible from the seed: the same history on two fresh cassettes (their own, untouched RNG) gives the same decisions
+    seqs = []
+    for run_no in range(2):
+        fake = FakeS3()
+        with fake.installed():
+            c = fake.cassette('w%d' % run_no, key_prefix='s', read_only=False, sampling_calculator=lambda category, size, recording: 0.5)
+            seq = []
+            for i in range(60):
+                n0 = len(fake.log)
+                rec = c.create_new_recording('Cat')
+                rec.set_data('k', i)
+                c.save_recording(rec)
+                seq.append(len(fake.log) > n0)
+                ctx.case(('s3repro', run_no, i))
+            seqs.append(seq)
+    ctx.count('s3_reproducibility_decisions', 120)
+    if seqs[0] != seqs[1]:
+        ctx.violation('S3 storage-level sampling is not reproducible: the same history on two fresh cassettes kept different recordings',
+                      {'first_difference': next(i for i, (a, b) in enumerate(zip(*seqs)) if a != b)})
+    if not (5 < sum(seqs[0]) < 55):
+        ctx.violation('S3 storage-level sampling with ratio 0.5 kept %d of 60' % sum(seqs[0]), {})
     # without a calculator everything is stored and no draw is consumed
     fake = FakeS3()
     with fake.installed():
